@@ -89,16 +89,43 @@ let parse_tree s =
 let comps s = if s = "." then [] else L.map bytes_of_hex (split '/' s)
 let show_comps l = join "/" (L.map hex_of_bytes l)
 
+(* a path element: comp/comp/... or ".", or r<spelling hex>:<comps> for an element spelled relative to the current
+   directory (the components are those of the directory it denotes, below the root); a trailing "+" appends "/..." *)
+let path_elem e =
+  let n = Str_.length e in
+  let dots = n > 0 && e.[n - 1] = '+' in
+  let e = if dots then Str_.sub e 0 (n - 1) else e in
+  if Str_.length e > 0 && e.[0] = 'r' then
+    match split ':' (Str_.sub e 1 (Str_.length e - 1)) with
+    | [_; c] -> (comps c, dots)
+    | _ -> failwith "bad-case"
+  else (comps e, dots)
+let spelled_dot e = Str_.length e >= 4 && Str_.sub e 0 4 = "r2e:" && e.[Str_.length e - 1] <> '+'   (* spelled exactly "." *)
+let parse_path p = if p = "-" then [] else L.map path_elem (split ';' p)
+
+(* readseq <tree> <cwd> <path> <name>,<name>,... : Modules.Read of each name in turn on one Modules *)
+let do_readseq toks =
+  match toks with
+  | [t; c; p; ns] ->
+    let root = File.Dir ([], parse_tree t) in
+    let cwd = comps c in
+    let path = parse_path p in
+    let dot0 = p <> "-" && L.exists spelled_dot (split ';' p) in
+    let names = L.map bytes_of_hex (split ',' ns) in
+    let st = { File.m_path = path; m_dot = dot0; m_opened = [] } in
+    join "," (L.map (function
+        | Outcome.Ok l -> if l = [] then "." else show_comps l
+        | Outcome.Err -> "-"
+        | Outcome.Panic -> "PANIC"
+        | Outcome.Unmodelled -> "unmodelled") (File.coq_Read_all root cwd st names))
+  | _ -> "bad-case"
+
 let do_findfile toks =
   match toks with
   | [t; c; p; n] ->
     let root = File.Dir ([], parse_tree t) in
     let cwd = comps c in
-    let path = if p = "-" then [] else
-        L.map (fun e ->
-            let n = Str_.length e in
-            if n > 0 && e.[n - 1] = '+' then (comps (Str_.sub e 0 (n - 1)), true) else (comps e, false))
-          (split ';' p) in
+    let path = parse_path p in
     let name = bytes_of_hex n in
     let where (f : File.found) =
       let i = int_of_nat f.File.f_loc in
@@ -129,11 +156,7 @@ let do_findtwice toks =
     let a = parse_tree ta in
     let ab = merge_entries a (parse_tree tb) in
     let cwd = comps c in
-    let path = if p = "-" then [] else
-        L.map (fun e ->
-            let n = Str_.length e in
-            if n > 0 && e.[n - 1] = '+' then (comps (Str_.sub e 0 (n - 1)), true) else (comps e, false))
-          (split ';' p) in
+    let path = parse_path p in
     let name = bytes_of_hex n in
     let look tree =
       match File.findFile_fs (File.Dir ([], tree)) cwd path name with
@@ -148,4 +171,4 @@ let do_findtwice toks =
     first ^ " " ^ second
   | _ -> "bad-case"
 
-let () = register "findtwice" do_findtwice; register "registry" do_registry; register "findfile" do_findfile
+let () = register "readseq" do_readseq; register "findtwice" do_findtwice; register "registry" do_registry; register "findfile" do_findfile
